@@ -606,7 +606,7 @@ def _overflow(ctx, oa, b, cfg, tr, bi, t):
     # D5 bounded counter: x += 1; if x > K { leave }
     if binop == 'Add' and rhs_const1 and ao['o'] == 'local':
         x = ao['l']
-        bc = _bounded_counter(b, cfg, tr, x, t['target'])
+        bc = _bounded_counter(b, cfg, tr, x, t['target'], bi)
         if bc:
             return 'discharged', 'bounded-counter', bc
         cc = _loop_counter(oa, b, cfg, tr, x, bi)
@@ -730,7 +730,54 @@ def _enumerate_loop(b, tr, header):
 _ENUM = {}
 
 
-def _bounded_counter(b, cfg, tr, x, after_bb):
+def _threshold_exits(b, cfg, tr, x, within=None):
+    """Comparisons `x > K` / `x >= K` of counter local x whose bool result — directly or through copies (a helper's return
+    slot, a threaded join) — decides a switch: [(cmp block, effective threshold, switch block, true edge leaves every loop
+    around the comparison)].  effective threshold T means the switch is taken when x > T."""
+    out = []
+    for bi in sorted(cfg.reach):
+        if within is not None and bi not in within:
+            continue
+        for s in b.blocks[bi]['stmts']:
+            if s['s'] != 'assign' or s['place']['p'] or s['rv']['r'] != 'binop' or s['rv']['op'] not in ('Gt', 'Ge'):
+                continue
+            lhs = tr.origin(s['rv']['a'])
+            ch = {l for l, _ in tr.chain(s['rv']['a'])}
+            if lhs.get('l') != x and x not in ch:
+                continue
+            kb = s['rv']['b']
+            K = const_value(kb) if kb.get('k') == 'const' else None
+            if K is None:
+                ko = tr.origin(kb)
+                K = const_value(ko['c']) if ko['o'] == 'const' else None
+            if not isinstance(K, int) or isinstance(K, bool):
+                continue
+            thr = K if s['rv']['op'] == 'Gt' else K - 1
+            web = {s['place']['l']}
+            grew = True
+            while grew:
+                grew = False
+                for bb2 in b.blocks:
+                    for s2 in bb2['stmts']:
+                        if s2['s'] == 'assign' and not s2['place']['p'] and s2['rv']['r'] == 'use' and s2['rv']['a'].get('l') in web \
+                                and not s2['rv']['a'].get('p') and s2['place']['l'] not in web:
+                            web.add(s2['place']['l'])
+                            grew = True
+            hdrs = {l['header'] for l in cfg.loops() if bi in l['body']}
+            for sbi in sorted(cfg.reachable_from([bi])):
+                t = b.blocks[sbi]['term']
+                if t['t'] != 'switch' or t['discr'].get('l') not in web or t['discr'].get('p') or t['discr'].get('ty') != 'bool':
+                    continue
+                zero = [tg for v, tg in t['arms'] if v == '0']
+                if not zero:
+                    continue
+                true_t = t['otherwise']
+                leaves = not (cfg.reachable_from([true_t]) & hdrs)
+                out.append((bi, thr, sbi, leaves))
+    return out
+
+
+def _bounded_counter(b, cfg, tr, x, after_bb, inc_bb=None):
     """x := x+1 in after_bb, then `if x > K {leave}`; every other def of x is the constant 0."""
     d = Defs(b)
     for (dbi, si, kind, rv) in d.of(x):
@@ -742,23 +789,17 @@ def _bounded_counter(b, cfg, tr, x, after_bb):
             continue
         if rv['r'] == 'use' and rv['a'].get('k') == 'move' and dbi == after_bb:
             continue
+        if rv['r'] == 'use' and 'l' in rv['a']:
+            zo = tr.origin(rv['a'])
+            if zo['o'] == 'const' and not zo.get('p') and const_value(zo['c']) == 0:
+                continue        # the initial 0 travelling through a constructor's field
         return None
-    blk = b.blocks[after_bb]
-    t = blk['term']
-    if t['t'] != 'switch':
+    # after the increment, every way back to the increment passes a switch on `x > K` whose true edge leaves the loops
+    exits = [e for e in _threshold_exits(b, cfg, tr, x) if e[3] and e[0] in cfg.reachable_from([after_bb])]
+    if not exits or inc_bb is None:
         return None
-    o = tr.origin(t['discr'])
-    if o['o'] != 'rvalue' or o['rv']['r'] != 'binop' or o['rv']['op'] not in ('Gt', 'Ge'):
-        return None
-    lhs = tr.origin(o['rv']['a'])
-    K = const_value(o['rv']['b']) if o['rv']['b'].get('k') == 'const' else None
-    if lhs.get('l') != x or not isinstance(K, int):
-        return None
-    true_t = t['otherwise']
-    loops = [l for l in cfg.loops() if after_bb in l['body']]
-    hdrs = {l['header'] for l in loops}
-    r = cfg.reachable_from([true_t], avoid=())
-    if r & hdrs:
+    K = max(e[1] for e in exits)
+    if inc_bb in cfg.reachable_from([after_bb], avoid={e[2] for e in exits}):
         return None
     lo, hi = {'i32': (-2 ** 31, 2 ** 31 - 1), 'u64': (0, 2 ** 64 - 1), 'usize': (0, 2 ** 64 - 1), 'i64': (-2 ** 63, 2 ** 63 - 1),
               'u32': (0, 2 ** 32 - 1)}.get(b.local_ty(x), (0, 127))
@@ -1098,7 +1139,8 @@ def _r3(ctx, oa):
             some_t = tgt
     if some_t is None:
         some_t = st['otherwise']
-    none_t = st['otherwise'] if some_t != st['otherwise'] else [tgt for v, tgt in st['arms'] if v == '0'][0]
+    zero = [tgt for v, tgt in st['arms'] if v == '0']
+    none_t = zero[0] if zero else st['otherwise']
     # region = blocks reachable from the Some edge before re-joining the None path
     hdr = oa.outer['header'] if oa.outer else oa.inner['header']
     none_reach = cfg.reachable_from([none_t], avoid={hdr})
@@ -1156,20 +1198,11 @@ def _r3(ctx, oa):
     why = 'no counter found'
     if counter is not None:
         why = 'exit condition not recognised'
-        for bi in sorted(region):
-            t = b.blocks[bi]['term']
-            if t['t'] != 'switch':
-                continue
-            o = tr.origin(t['discr'])
-            if o['o'] == 'rvalue' and o['rv']['r'] == 'binop' and o['rv']['op'] in ('Gt', 'Ge'):
-                lhs = tr.origin(o['rv']['a'])
-                K = const_value(o['rv']['b']) if o['rv']['b'].get('k') == 'const' else None
-                if lhs.get('l') == counter and isinstance(K, int):
-                    thr = K if o['rv']['op'] == 'Gt' else K - 1
-                    tt = t['otherwise']
-                    leaves = not (cfg.reachable_from([tt]) & {oa.outer['header']})
-                    okc = thr == 5 and leaves
-                    why = 'the run ends when the counter exceeds %d (required: more than five consecutive loops)' % thr
+        # `counter > K` decides (directly, or through the bool a helper returns) a switch whose true edge ends the run
+        for (cbi, thr, sbi2, leaves) in _threshold_exits(b, cfg, tr, counter, within=region):
+            if sbi2 in region:
+                okc = thr == 5 and leaves
+                why = 'the run ends when the counter exceeds %d (required: more than five consecutive loops)' % thr
         # increment condition: (score_current - score_start) < precision
         inc_ok = False
         for bi in sorted(region):
